@@ -989,6 +989,44 @@ def rule_r20(prog, res):
     res.floor('R20', 'binary writers with a protocol fall-back', n, 3)
 
 
+def rule_r21(prog, res):
+    res.rule('R21', 'where the hierarchical dict codec handles the binary '
+             'kinds (ByteArray, Uuid, File) it passes the protocol\'s '
+             'binary encoding on: not every leaf codec has a fall-back of '
+             'its own')
+    h = prog.cls('spyne.protocol.dictdoc.hier:HierDictDocument')
+    n = 0
+    for nm, g in sorted(h.methods.items()):
+        for c in calls_in(g.node):
+            if not (isinstance(c.func, ast.Attribute) and
+                    unparse(c.func.value) == 'self' and c.func.attr in (
+                        '_from_leaf', 'to_serstr', 'from_serstr',
+                        'from_unicode', 'to_unicode', 'to_bytes',
+                        'from_bytes')):
+                continue
+            gs = [unparse(e) for e, pol in flatten_guards(guards_at(
+                c, stop=g.node)) if pol]
+            if not any('issubclass' in t and ('ByteArray' in t or
+                                              'Uuid' in t) for t in gs):
+                continue
+            n += 1
+            ok = any(unparse(a) == 'self.binary_encoding' for a in c.args) \
+                or any(unparse(k.value) == 'self.binary_encoding'
+                       for k in c.keywords)
+            where = '%s:%d' % (g.module.relpath, c.lineno)
+            res.ob('R21', where, 'HierDictDocument.%s: %s' % (
+                nm, unparse(c)[:60]), 'ok' if ok else 'VIOLATED')
+            if not ok:
+                res.finding('R21', 'HierDictDocument.%s|binary-encoding-not-'
+                            'passed|%s' % (nm, c.func.attr), where, '%s is '
+                            'called for ByteArray/Uuid values without '
+                            'self.binary_encoding: the Uuid codecs have no '
+                            'fall-back of their own, so Uuid(serialize_as='
+                            '"bytes") is no longer base64-decoded and the '
+                            'conformant request is refused' % c.func.attr)
+    res.floor('R21', 'binary leaf codec calls in HierDictDocument', n, 2)
+
+
 def run(prog, res, tier):
     res.run_rule(rule_r1, prog, res)
     res.run_rule(rule_r2, prog, res)
@@ -1010,6 +1048,7 @@ def run(prog, res, tier):
     res.run_rule(rule_r18, prog, res)
     res.run_rule(rule_r19, prog, res)
     res.run_rule(rule_r20, prog, res)
+    res.run_rule(rule_r21, prog, res)
 
 
 _H = 'spyne/protocol/dictdoc/hier.py'
@@ -1018,6 +1057,14 @@ _J = 'spyne/protocol/json.py'
 _Y = 'spyne/protocol/yaml.py'
 
 MUTANTS = [
+    Mutant('dict-binary-leaf-without-encoding', 'R21', 'fire',
+           'spyne/protocol/dictdoc/hier.py',
+           in_func('HierDictDocument._from_dict_value',
+                   "retval = self._from_leaf(key, cls, inst,\n"
+                   "                                                           "
+                   "self.binary_encoding)",
+                   "retval = self._from_leaf(key, cls, inst)"),
+           'binary-encoding-not-passed'),
     Mutant('byte-array-text-without-protocol-encoding', 'R20', 'fire',
            'spyne/protocol/_outbase.py',
            in_func('OutProtocolBase.byte_array_to_unicode',
